@@ -84,7 +84,7 @@ func allChecks() []*Check {
 			Harnesses: []Harness{
 				{Pkg: "client", Func: "VerifC09Order", Sched: true, Quick: map[string]int{"S": 2, "L": 2, "SW": 1}, Thorough: map[string]int{"S": 3, "L": 3, "SW": 2}, Asserts: []string{"every-line-written-exactly-once", "line-is-the-next-of-its-sender-byte-for-byte", "all-lines-of-every-sender-arrived"}},
 				{Pkg: "client", Func: "VerifC09Order", Sched: true, Quick: map[string]int{"S": 2, "L": 1, "BIG": 36, "SW": 1}, Thorough: map[string]int{"S": 2, "L": 2, "BIG": 40, "SW": 2}, Asserts: []string{"every-line-written-exactly-once", "line-is-the-next-of-its-sender-byte-for-byte"}, Note: "one sender with more lines outstanding than the queue holds"},
-				{Pkg: "client", Func: "VerifC09Bytes", Asserts: []string{"wire-is-exactly-line-crlf", "raw-enqueues-the-line-unchanged"}},
+				{Pkg: "client", Func: "VerifC09Bytes", Asserts: []string{"wire-is-exactly-line-crlf", "raw-enqueues-the-line-unchanged", "no-byte-written-twice-after-a-timeout"}},
 			},
 			Bounds:      map[string]string{"quick": "2 senders (a user goroutine and a foreground handler) x 2 lines, and one sender with 37 lines against a 32-slot queue; peer reading fast / one line at a time / in one burst after everything was issued; schedules: run-until-block plus every schedule within delay bound 1 (block points, select, explicit yields after each Raw and each peer read); byte-exactness of write() for lines of 0,1,509..513,600,4000 bytes with a symbolic last byte", "thorough": "3 senders x 3 lines, 42 lines backlog, delay bound 2"},
 			Outside:     []string{"schedules beyond the delay bound", "flood control on (C10)", "connection drops while sending (the property is conditional on the connection staying up)"},
@@ -216,6 +216,7 @@ func allChecks() []*Check {
 				{Pkg: "client", Func: "VerifC10Step", Asserts: []string{"penalty-rule", "hold-iff-over-10s", "lastsent-is-a-reading-taken-during-the-call"}},
 				{Pkg: "client", Func: "VerifC10Write", Asserts: []string{"flood-never-sleeps", "sleeps-own-charge", "sleep-before-write", "no-sleep-when-under", "penalty-rule"}},
 				{Pkg: "client", Func: "VerifC10Window", Quick: map[string]int{"K": 4}, Thorough: map[string]int{"K": 5}, Solver: "z3-lia", Asserts: []string{"window-bound", "penalty-rule", "held-own-charge"}},
+				{Pkg: "client", Func: "VerifC10Queued", Quick: map[string]int{"K": 4}, Thorough: map[string]int{"K": 5}, Solver: "z3-lia", Asserts: []string{"window-bound", "every-queued-line-reached-the-socket"}, Note: "a burst already queued when the real send goroutine starts; arrival = clock reading of the socket write carrying the line"},
 			},
 			Bounds: map[string]string{"quick": "one rateLimit step from ANY state (penalty 0..2^40 ns, line length 0..2^20, any clock readings); write() for lines of 0..3 bytes, Flood symbolic; 4 consecutive lines (lengths from {0,120,510}) from a fresh client with arbitrary idle gaps",
 				"thorough": "same with 5 consecutive lines"},
